@@ -19,6 +19,11 @@
 (*           "other"; lab = "AOS" | "LOS" | "MAX" | ...; up = sign of the  *)
 (*           elevation of the item; z = |elevation| (signal) or |rate|     *)
 (*           (max) in 1e-9 rad (rad/s)                                     *)
+(*   picks   <<[info, offset, found, s, us]>> what find_event(stream, info, *)
+(*           offset) returned on a further identical call (found = FALSE:  *)
+(*           it raised): the (offset+1)-th event carrying that text        *)
+(*   filtered <<[s, us]>> what events_iterator(stream, info1, info2)       *)
+(*           yielded (T.filter = the texts asked for; <<>> = every event)  *)
 (* Times are <<seconds, microseconds>> from the start (32-bit safe).       *)
 (* The verdict is a pure function of the trace: TLC evaluates it for every *)
 (* recorded call and prints the failing clauses.                           *)
@@ -67,6 +72,14 @@ Verdict(T) ==
   \cup (IF \A q \in 1..(Len(S) - 1) : TLeq(S[q], S[q + 1]) THEN {} ELSE {"not-chronological"})
   \* an event of another listener is only yielded above the horizon; AOS / LOS / MAX always
   \cup (IF \A q \in 1..Len(S) : (S[q].k = "E" /\ S[q].cls = "other") => S[q].up >= 0 THEN {} ELSE {"foreign-event-below-horizon"})
+  \* find_event / events_iterator (beyond.propagators.listeners): selections of the same stream
+  \cup (LET Ev(info) == SelectSeq(S, LAMBDA x : x.k = "E" /\ x.info = info) IN
+        IF \A q \in 1..Len(T.picks) :
+             LET p == T.picks[q] e == Ev(p.info) IN
+               IF p.offset + 1 <= Len(e) THEN p.found /\ TEq(p, e[p.offset + 1]) ELSE ~p.found
+        THEN {} ELSE {"find-event"})
+  \cup (LET want == SelectSeq(S, LAMBDA x : x.k = "E" /\ (T.filter = <<>> \/ \E f \in 1..Len(T.filter) : T.filter[f] = x.info)) IN
+        IF Len(T.filtered) = Len(want) /\ \A q \in 1..Len(want) : TEq(T.filtered[q], want[q]) THEN {} ELSE {"events-iterator"})
   \* the elevation of AOS / LOS, the elevation rate of MAX, is zero
   \cup (IF \A q \in 1..Len(S) : (S[q].k = "E" /\ S[q].cls \in {"signal", "max"}) => S[q].z <= ZTol THEN {} ELSE {"event-not-at-zero"})
 
